@@ -998,11 +998,7 @@ func parseLetDestVarDef(pExpr func(ParseState) frt.Tuple2[ParseState, Expr], ps 
 	case FType_FTypeVar:
 		tpgen := psTypeVarGen(ps4)
 		name2tp := func(name string) FType {
-			return frt.IfElse(frt.OpEqual(name, "_"), (func() FType {
-				return New_FType_FUnit
-			}), (func() FType {
-				return frt.Pipe(tpgen(), New_FType_FTypeVar)
-			}))
+			return frt.Pipe(tpgen(), New_FType_FTypeVar)
 		}
 		vtypes := slice.Map(name2tp, vnames)
 		vars := frt.Pipe(slice.Zip(vnames, vtypes), (func(_r0 []frt.Tuple2[string, FType]) []Var {
